@@ -250,6 +250,8 @@ def runC18 (op : String) (j : Json) : R Json := do
                       ("back", jSimple (readTsvSimple text)),
                       ("expected", jSimple (some (field, (sortById data).map fun p => (p.1, obsS p.2)))),
                       ("real_parsed", jOpt (fun (t : String) => jSimple (readTsvSimple t.toList)) real),
+                      -- the written file after blank lines were inserted (between rows / at the end), through the model reader
+                      ("edited_parsed", jOpt (fun (t : String) => jSimple (readTsvSimple t.toList)) (← optText j "impl_edited")),
                       -- the same file through `load_metadata` (cluster-table reader + regrouping)
                       ("meta", jMeta (loadMetadata text)),
                       ("meta_expected", jMeta (some (if data = [] then [] else
